@@ -132,6 +132,58 @@ func VerifHarness_C19_NoMarker() {
 	wrong2 := &ast.GenDecl{Tok: token.TYPE, Doc: &ast.CommentGroup{List: []*ast.Comment{{Text: "// goverter:variables"}}}, Specs: []ast.Spec{&ast.TypeSpec{Name: &ast.Ident{Name: "T"}, Type: &ast.InterfaceType{Methods: &ast.FieldList{}}}}}
 	_, err = parseGenDecl(fset, pkg, wrong2)
 	verifAssert("variables-marker-on-type-is-an-error", err != nil)
+	// every marker on every kind of general declaration that cannot carry it, on the declaration itself
+	// (grouped or not, also an empty group)
+	mk := []string{"// goverter:converter", "// goverter:variables"}[nondetChoice("wrong.marker", 2)]
+	tok := []token.Token{token.CONST, token.IMPORT, token.VAR, token.TYPE}[nondetChoice("wrong.kind", 4)]
+	verifAssume(!(tok == token.VAR && mk == "// goverter:variables") && !(tok == token.TYPE && mk == "// goverter:converter"))
+	var specs []ast.Spec
+	switch tok {
+	case token.IMPORT:
+		specs = []ast.Spec{&ast.ImportSpec{Path: &ast.BasicLit{Kind: token.STRING, Value: "\"fmt\""}}}
+	case token.TYPE:
+		specs = []ast.Spec{&ast.TypeSpec{Name: &ast.Ident{Name: "T"}, Type: &ast.InterfaceType{Methods: &ast.FieldList{}}}}
+	default:
+		specs = []ast.Spec{&ast.ValueSpec{Names: []*ast.Ident{{Name: "X"}}}}
+	}
+	n := nondetChoice("wrong.specs", 3)
+	for len(specs) < n {
+		specs = append(specs, specs[0])
+	}
+	if n == 0 {
+		specs = nil
+	}
+	wrong3 := &ast.GenDecl{Tok: tok, Doc: &ast.CommentGroup{List: []*ast.Comment{{Text: "// Some words."}, {Text: mk}}}, Specs: specs}
+	if n != 1 {
+		wrong3.Lparen = 1
+	}
+	_, err = parseGenDecl(fset, pkg, wrong3)
+	verifAssert("marker-on-a-declaration-that-cannot-carry-it-is-an-error", err != nil)
+	// a marker on a single declaration *inside* a var / const group, or the variables marker on a type of a type
+	// group, is on the wrong kind of declaration as well
+	inner := &ast.GenDecl{Tok: []token.Token{token.VAR, token.CONST}[nondetChoice("inner.kind", 2)], Lparen: 1, Specs: []ast.Spec{
+		&ast.ValueSpec{Names: []*ast.Ident{{Name: "Plain"}}},
+		&ast.ValueSpec{Names: []*ast.Ident{{Name: "Marked"}}, Doc: &ast.CommentGroup{List: []*ast.Comment{{Text: mk}}}}}}
+	_, err = parseGenDecl(fset, pkg, inner)
+	verifAssert("marker-on-a-declaration-inside-a-value-group-is-an-error", err != nil)
+	innerT := &ast.GenDecl{Tok: token.TYPE, Lparen: 1, Specs: []ast.Spec{
+		&ast.TypeSpec{Name: &ast.Ident{Name: "T"}, Type: &ast.InterfaceType{Methods: &ast.FieldList{}}, Doc: &ast.CommentGroup{List: []*ast.Comment{{Text: "// goverter:variables"}}}}}}
+	_, err = parseGenDecl(fset, pkg, innerT)
+	verifAssert("variables-marker-on-a-type-of-a-group-is-an-error", err != nil)
+	// a variables block declares one variable per line: `A, B func(...)` is reported, not half-generated
+	multi := &ast.GenDecl{Tok: token.VAR, Lparen: 1, Doc: &ast.CommentGroup{List: []*ast.Comment{{Text: "// goverter:variables"}}}, Specs: []ast.Spec{
+		&ast.ValueSpec{Names: []*ast.Ident{{Name: "One"}}}, &ast.ValueSpec{Names: []*ast.Ident{{Name: "A"}, {Name: "B"}}}}}
+	_, err = parseGenDecl(fset, pkg, multi)
+	verifAssert("several-names-in-one-variable-line-is-an-error", err != nil)
+	// the converter marker on a type group that declares nothing, or several types
+	for _, k := range []int{0, 2} {
+		var ts []ast.Spec
+		for i := 0; i < k; i++ {
+			ts = append(ts, &ast.TypeSpec{Name: &ast.Ident{Name: "T"}, Type: &ast.InterfaceType{Methods: &ast.FieldList{}}})
+		}
+		_, err = parseGenDecl(fset, pkg, &ast.GenDecl{Tok: token.TYPE, Lparen: 1, Doc: &ast.CommentGroup{List: []*ast.Comment{{Text: "// goverter:converter"}}}, Specs: ts})
+		verifAssert("converter-marker-on-a-group-without-exactly-one-type-is-an-error", err != nil)
+	}
 }
 
 // VerifHarness_C19_Trailing: trailing (same-line) comments of methods, variables and type specs never
